@@ -1,12 +1,18 @@
 (* C08 — axis-wise reductions and scans equal the 1-D operation on every lane.
-   PROVED here: the 1-D bodies meet their definitions (running totals, bounding element, count); with no axis
-   the operation acts on the flattened array; an axis outside the rank is an error value in either spelling; a
-   negative axis denotes the same axis counted from the end; every result is well formed.
-   NOT YET PROVED (checked on every run by the correspondence check, which extracts every lane with the model and
-   compares with the implementation's own 1-D call): the generic lane theorem
-     C08_along : apply_along_axis a ax g = Ok r -> get r c = nth (nth ax c) (g (lane a ax (remove ax c)))
-   — so this file's claim about lanes is the *_partial one below (shape only). *)
-From ArrRs Require Import Index Axis Axis_proofs Split Lift Reduce Reduce_proofs.
+   PROVED here, for every well-formed array with positive extents, every rank, every axis in either spelling:
+   - C08_along: the generic lane theorem for apply_along_axis — the result has the input's shape with the lane
+     result's length at the axis, and its element at coordinate c is element c[axis] of the lane function applied to
+     exactly the lane of the input at the remaining coordinates of c (move-to-last transpose, split into lanes,
+     re-assembly and the move back are all inside the theorem);
+   - C08_scan_axis / C08_reduce_axis / C08_index_reduce_axis: its instances for scans (cumsum, cumprod and their nan-skipping forms),
+     reductions (sum, prod, max, min and their nan-skipping forms) and counting / searching (count_nonzero, argmax, argmin);
+   - the 1-D bodies meet their definitions (running totals, bounding element, count); with no axis the operation
+     acts on the flattened array; an axis outside the rank is an error value in either spelling; a negative axis
+     denotes the same axis counted from the end; every result is well formed.
+   MODELLED, NOT PROVED: floating-point lane bodies (the correspondence check compares them through the
+   implementation's own 1-D call on the lane the model extracts); diff/ediff1d/gradient-style operations that do not go
+   through apply_along_axis are covered by the correspondence check only. *)
+From ArrRs Require Import Index Axis Axis_proofs Broadcast_proofs Split Lift Reduce Reduce_proofs Along_proofs.
 
 Theorem C08_cumsum_lane : forall l k, k < length l -> nth k (z_cumsum1 l) 0%Z = z_sum1 (firstn (S k) l).
 Proof. exact z_cumsum1_spec. Qed.
@@ -46,8 +52,51 @@ Theorem C08_axis_out_of_range : forall (T : Type) (dt : T) (g1 : list T -> res T
   reduce dt g1 a (Some z) = Err EAxis /\ scan dt g a (Some z) = Err EAxis.
 Proof. intros. split; [now apply reduce_axis_err | now apply scan_axis_err]. Qed.
 
-(* every array returned by the lane machinery is well formed *)
-Theorem C08_along_wf_partial : forall (T U : Type) (dt : T) (du : U) (a : arr T) axis f r,
+(* THE LANE THEOREM *)
+Theorem C08_along : forall (T U : Type) (dt : T) (du : U) (a : arr T) ax (f : arr T -> res (arr U)) (fr : arr T -> arr U) m,
+  wf a -> pos_shape (shape a) -> ax < ndim a -> (Z.of_nat (ndim a) < two64)%Z ->
+  (forall ln, wf ln -> shape ln = [nth ax (shape a) 0] -> f ln = Ok (fr ln) /\ len (fr ln) = m) ->
+  exists R, apply_along_axis dt du a ax f = Ok R /\ wf R /\ shape R = upd (shape a) ax m /\
+    forall c, in_range (shape R) c ->
+      get du R c = nth (nth ax c 0) (elems (fr (lane dt a ax (remove_nth c ax)))) du.
+Proof. exact @apply_along_axis_spec. Qed.
+
+(* what a lane is: the elements a[rest with k inserted at ax], k = 0 .. extent-1, in order *)
+Theorem C08_lane_def : forall (T : Type) (dt : T) (a : arr T) ax rest,
+  elems (lane dt a ax rest) = map (fun k => get dt a (insert_nth rest ax k)) (seq 0 (nth ax (shape a) 0)).
+Proof. reflexivity. Qed.
+
+Theorem C08_scan_axis : forall (T : Type) (dt : T) (g : list T -> list T) (a : arr T) z,
+  wf a -> pos_shape (shape a) -> (Z.of_nat (ndim a) < two64)%Z -> axis_ok (ndim a) z ->
+  (forall l, length (g l) = length l) ->
+  let ax := norm_nat (ndim a) z in
+  exists R, scan dt g a (Some z) = Ok R /\ wf R /\ shape R = shape a /\
+    forall c, in_range (shape a) c ->
+      get dt R c = nth (nth ax c 0) (g (elems (lane dt a ax (remove_nth c ax)))) dt.
+Proof. exact @scan_axis_spec. Qed.
+
+Theorem C08_reduce_axis : forall (T : Type) (dt : T) (g1 : list T -> res T) (h : list T -> T) (a : arr T) z,
+  wf a -> pos_shape (shape a) -> (Z.of_nat (ndim a) < two64)%Z -> axis_ok (ndim a) z ->
+  let ax := norm_nat (ndim a) z in
+  (forall l, length l = nth ax (shape a) 0 -> g1 l = Ok (h l)) ->
+  exists R, reduce dt g1 a (Some z) = Ok R /\ wf R /\
+    (1 < ndim a -> shape R = remove_nth (shape a) ax /\
+        forall rest, in_range (shape R) rest -> get dt R rest = h (elems (lane dt a ax rest))) /\
+    (ndim a = 1 -> R = mk [h (elems a)] [1]).
+Proof. exact @reduce_axis_spec. Qed.
+
+Theorem C08_index_reduce_axis : forall (T U : Type) (dt : T) (du : U) (g1 : list T -> res U) (h : list T -> U) (a : arr T) z keepdims,
+  wf a -> pos_shape (shape a) -> (Z.of_nat (ndim a) < two64)%Z -> axis_ok (ndim a) z ->
+  let ax := norm_nat (ndim a) z in
+  (forall l, length l = nth ax (shape a) 0 -> g1 l = Ok (h l)) ->
+  exists R, index_reduce dt du g1 a (Some z) keepdims = Ok R /\ wf R /\
+    shape R = (if keepdims then upd (shape a) ax 1 else remove_nth (shape a) ax) /\
+    forall rest, in_range (remove_nth (shape a) ax) rest ->
+      get du R (if keepdims then insert_nth rest ax 0 else rest) = h (elems (lane dt a ax rest)).
+Proof. exact @index_reduce_axis_spec. Qed.
+
+(* every array returned by the lane machinery is well formed, whatever the lane function returns *)
+Theorem C08_along_wf : forall (T U : Type) (dt : T) (du : U) (a : arr T) axis f r,
   apply_along_axis dt du a axis f = Ok r -> wf r.
 Proof. exact @apply_along_axis_wf. Qed.
 
@@ -56,3 +105,10 @@ Example C08_nonvacuous :
     = Ok (mk [12;15;18;21;48;51;54;57]%Z [2;2;2]) /\
   scan 0%Z z_cumsum1 (mk [1;2;3;4;5;6]%Z [2;3]) (Some (-1)%Z) = Ok (mk [1;3;6;4;9;15]%Z [2;3]).
 Proof. split; vm_compute; reflexivity. Qed.
+
+(* the hypotheses of the lane theorems are met by a concrete rank-4 array and a middle axis *)
+Example C08_lane_nonvacuous :
+  let a := mk (map Z.of_nat (seq 0 24)) [2;3;2;2] in
+  wf a /\ pos_shape (shape a) /\ axis_ok (ndim a) (-3)%Z /\ norm_nat (ndim a) (-3)%Z = 1 /\
+  elems (lane 0%Z a 1 [1;0;1]) = [13; 17; 21]%Z.
+Proof. cbn zeta. repeat split; try (vm_compute; reflexivity); try (unfold axis_ok; cbn; lia). repeat constructor. Qed.
